@@ -56,6 +56,10 @@ def violators (n : Nat) (s : St) : List (Pid × Pid) :=
     if i != j && !decide (related s i j) && s.pc i == .hold && s.kind i == .ex && inBody (s.pc j)
     then some (i, j) else none
 
+def terminal : PC → Bool
+  | .done | .failedAcq _ | .failedRel _ | .killed => true
+  | _ => false
+
 /-- `"stale": [["E", 9], ..]`: lock files left behind by killed processes (kind, pid ≥ number of live processes) -/
 def ghostsOfJson (j : Json) : Except String (List (Kind × Pid)) :=
   match j.getObjVal? "stale" with
@@ -75,6 +79,8 @@ def ghostsOfJson (j : Json) : Except String (List (Kind × Pid)) :=
 `eups admin clearLocks`; `1000001` `eups admin listLocks` -/
 def evClear : Int := 1000000
 def evList : Int := 1000001
+/-- `2000000 + i`: SIGKILL for process `i` -/
+def evKill : Int := 2000000
 
 /-- what `listLocks` shows: the lockers' pids (it prints user and pid, not the kind of lock) -/
 def sortedListing (fs : List (Kind × Pid)) : String :=
@@ -95,6 +101,14 @@ def opRun (j : Json) : Except String Json := do
       s := if e == evClear then clearLocks s else s
       let v := violators n s
       steps := steps.push (Json.arr #[toJson (-1 : Int), (if e == evClear then "clearLocks" else "listLocks"), rs,
+        Json.arr (v.map fun (a, b) => Json.arr #[toJson a, toJson b]).toArray])
+    else if e ≥ evKill then
+      let i := (e - evKill).toNat
+      if i ≥ n then throw s!"pid {i} out of range"
+      let rs := if terminal (s.pc i) then "gone" else "killed"
+      s := if terminal (s.pc i) then s else crash s i
+      let v := violators n s
+      steps := steps.push (Json.arr #[toJson i, "sigkill", rs,
         Json.arr (v.map fun (a, b) => Json.arr #[toJson a, toJson b]).toArray])
     else
       let i := if e ≥ 0 then e.toNat else (-e - 1).toNat
@@ -123,10 +137,6 @@ structure Snap where
 def snapSt (ps : Array Proc) (x : Snap) : St :=
   { dir := x.dir, files := x.files, kind := kindOf ps, lp := lpOf ps,
     pc := fun i => x.pcs.getD i .done }
-
-def terminal : PC → Bool
-  | .done | .failedAcq _ | .failedRel _ | .killed => true
-  | _ => false
 
 def snapStep (ps : Array Proc) (x : Snap) (p : Pid) : Snap :=
   let s' := step (snapSt ps x) p
